@@ -16,6 +16,18 @@ def run(tier):
     for f in ("AckWithoutStore", "SelfTarget"):
         dev[f] = vlib.tlc_must_fail("Store", "MC_Store_%s.cfg" % f, "AsImplemented_" + f, workers=4).violated
     rep.coverage["deviation_counterexamples"] = dev
+    # composition root (design level): connections + tables + lookup guarantee + put/get + pending table + stop in one model
+    rc = vlib.tlc_must_hold("SaorsaCore", "MC_SaorsaCore_big.cfg" if big else "MC_SaorsaCore.cfg",
+                            "composition: churn, concurrent puts of different nodes, stop; cross-module visibility", workers=16 if big else 8, timeout=3000)
+    rep.add_tlc(rc, "SaorsaCore composition")
+    comp = {}
+    for cfg, what, want in (("MC_SaorsaCore_CloseForgets.cfg", "closing a connection forgets the peer: a stored value becomes invisible", "property"),
+                            ("MC_SaorsaCore_SendAfterStop.cfg", "a put in flight keeps sending after stop", "QuietAfterStop")):
+        x = vlib.tlc_must_fail("SaorsaCore", cfg, what, workers=4, timeout=1500)
+        if x.violated != want:
+            raise vlib.ToolError("TLC SaorsaCore/%s: expected %s to be violated, got %s" % (cfg, want, x.violated))
+        comp[cfg] = "VisibleThroughThirdParty" if want == "property" else x.violated
+    rep.coverage["composition_root"] = {"states": rc.distinct, "counterexamples": comp}
     trace = os.path.join(wd, "trace.ndjson")
     segs, ops = (1200, 14) if big else (120, 12)
     vlib.run_harness(["c03", "drive", "out=" + trace, "segments=%d" % segs, "ops=%d" % ops], timeout=3000)
